@@ -26,11 +26,12 @@ type txnCtx struct {
 	// whether reads inside this transaction are compared with the committed model state
 	checkReads bool
 	// whether selections (Range/Count/filters) are compared exactly (single-client only)
-	exact  bool
-	sel    sel  // the model's view of the transaction's selection (exact worlds)
-	first  bool // no filter call has been made yet (a leading Union intersects)
-	inited bool
+	exact   bool
+	sel     sel  // the model's view of the transaction's selection (exact worlds)
+	first   bool // no filter call has been made yet (a leading Union intersects)
+	inited  bool
 	cleared bool // a filter on a missing column truncated the selection
+	thread  int
 }
 
 // runTxn executes one transaction program on the primary and mirrors it into the model.
@@ -100,6 +101,18 @@ func (x *txnCtx) resolve(t Target) (uint32, bool) {
 			return 0, false
 		}
 		return x.mine[t.K%len(x.mine)], true
+	case "stable":
+		st := x.w.conc.stable
+		if len(st) == 0 {
+			return 0, false
+		}
+		return st[t.K%len(st)], true
+	case "own":
+		own := x.w.conc.own[x.thread]
+		if len(own) == 0 {
+			return 0, false
+		}
+		return own[t.K%len(own)], true
 	}
 	live := x.w.model.Live()
 	if len(live) == 0 {
@@ -121,26 +134,31 @@ func (x *txnCtx) execOp(op *Op) {
 		x.keyed(op)
 	case "querykey":
 		at, found := w.model.KeyOf(op.Key)
+		reliable := w.keysStable()
 		reached := false
 		err := x.txn.QueryKey(op.Key, func(r column.Row) error {
 			reached = true
-			if r.Index() != at {
+			if reliable && r.Index() != at {
 				w.fail(violation("key/lookup-wrong-row", "QueryKey(%q) reached row %d, model has it at %d", op.Key, r.Index(), at))
 				return nil
 			}
-			x.inRow(r, at, op)
+			x.inRow(r, r.Index(), op)
 			return nil
 		})
-		if (err == nil) != found || reached != found {
+		if reliable && ((err == nil) != found || reached != found) {
 			w.fail(violation("key/query-result", "QueryKey(%q) err=%v reached=%v, key present in committed state: %v", op.Key, err, reached, found))
 		}
 	case "deletekey":
+		// only issued on keys no other thread touches (or single-client), so the model is reliable
 		at, found := w.model.KeyOf(op.Key)
+		if found && (w.avoid["put-delete"] && x.wrote(at, "") || w.avoid["double-delete"] && x.deleted(at)) {
+			return
+		}
 		err := x.txn.DeleteKey(op.Key)
 		if (err == nil) != found {
 			w.fail(violation("key/delete-result", "DeleteKey(%q) err=%v, key present in committed state: %v", op.Key, err, found))
 		}
-		if err == nil {
+		if err == nil && found {
 			x.mt.add(MOp{Kind: mDelete, Off: at})
 		}
 	case "at":
@@ -263,39 +281,78 @@ func (x *txnCtx) insert(op *Op, key string) {
 func (x *txnCtx) keyed(op *Op) {
 	w := x.w
 	at, exists := w.model.KeyOf(op.Key)
-	if !exists {
-		x.insert(op, op.Key)
-		return
-	}
-	if op.Kind == "insertkey" {
-		called := false
-		err := x.txn.InsertKey(op.Key, func(r column.Row) error { called = true; return nil })
-		if err == nil || called {
-			w.fail(violation("key/insert-existing", "InsertKey(%q) err=%v callback-called=%v although the key exists at row %d", op.Key, err, called, at))
-			if called {
-				// keep the model in step with what happened so that the run can be reported
-				return
+	// The committed key map is a reliable prediction only while no commit is in flight on
+	// another thread (the library applies the key write somewhere inside the commit).
+	reliable := w.keysStable()
+	before := w.reserves[x.thread]
+	called := false
+	var rowAt uint32
+	inserted := false
+	cb := func(r column.Row) error {
+		called = true
+		rowAt = r.Index()
+		if w.reserves[x.thread] != before {
+			// the library reserved a fresh offset: insert path
+			inserted = true
+			x.mt.add(MOp{Kind: mInsert, Off: rowAt})
+			x.mine = append(x.mine, rowAt)
+			x.checkFresh(r, rowAt)
+			x.writes(r, rowAt, op)
+			if op.Fail {
+				x.mt.Failed[rowAt] = true
+				delete(w.model.Reserved, rowAt)
+				return errInsertFail
 			}
-		}
-		return
-	}
-	// upsert of an existing key: update in place
-	reached := false
-	err := x.txn.UpsertKey(op.Key, func(r column.Row) error {
-		reached = true
-		if r.Index() != at {
-			w.fail(violation("key/upsert-wrong-row", "UpsertKey(%q) positioned row %d, model has the key at row %d", op.Key, r.Index(), at))
 			return nil
 		}
-		x.inRow(r, at, op)
+		x.inRow(r, rowAt, op)
 		if op.Fail {
 			return errInsertFail
 		}
 		return nil
-	})
-	if !reached || (err != nil) != op.Fail {
-		w.fail(violation("key/upsert-result", "UpsertKey(%q) on existing key: reached=%v err=%v", op.Key, reached, err))
 	}
+	var err error
+	if op.Kind == "insertkey" {
+		err = x.txn.InsertKey(op.Key, cb)
+	} else {
+		err = x.txn.UpsertKey(op.Key, cb)
+	}
+	if inserted {
+		// the library queues the key write after the callback, whatever it returned
+		kc, _ := w.model.KeyCol()
+		x.mt.add(MOp{Kind: mPut, Off: rowAt, Col: kc.Name, Val: MVal{S: op.Key}})
+	}
+	if called && (err != nil) != op.Fail {
+		w.fail(violation("key/result", "%s(%q): callback failed=%v but err=%v", op.Kind, op.Key, op.Fail, err))
+		return
+	}
+	if !reliable {
+		return
+	}
+	switch {
+	case op.Kind == "insertkey" && exists && (called || err == nil):
+		w.fail(violation("key/insert-existing", "InsertKey(%q) err=%v callback-called=%v although the key exists at row %d", op.Key, err, called, at))
+	case op.Kind == "insertkey" && !exists && !inserted:
+		w.fail(violation("key/insert-refused", "InsertKey(%q) err=%v did not insert although the key is absent", op.Key, err))
+	case op.Kind == "upsertkey" && exists && (inserted || !called || rowAt != at):
+		w.fail(violation("key/upsert-existing", "UpsertKey(%q): key exists at row %d but inserted=%v called=%v row=%d", op.Key, at, inserted, called, rowAt))
+	case op.Kind == "upsertkey" && !exists && !inserted:
+		w.fail(violation("key/upsert-absent", "UpsertKey(%q): key absent but no row was inserted (called=%v err=%v)", op.Key, called, err))
+	}
+}
+
+// keysStable reports whether no other thread is inside a commit (between taking a block
+// latch and releasing it), i.e. the model's key map equals the library's lookup table.
+func (w *World) keysStable() bool {
+	if w.conc == nil {
+		return true
+	}
+	for tid, m := range w.conc.cur {
+		if tid != w.tid() && len(m) > 0 {
+			return false
+		}
+	}
+	return true
 }
 
 // checkFresh asserts that a row being inserted shows no value in any column.
